@@ -7,9 +7,9 @@ CONSTANTS
   Replicas = {"n"}
   Up <- MCUp
   IsCompact <- MCIsCompact
-  MaxBatch = 3
+  MaxBatch = 2
   ChunkSizes = {2}
-  MaxVer = 7
+  MaxVer = 4
   MaxRestarts = 1
   MaxOps = 0
   OrigNames = FALSE
